@@ -19,15 +19,20 @@ func TestC41Known(t *testing.T) {
 		id, what    string
 		setup       []string // on A before persisting
 		after       []string // on A and B after loading
-		user, probe string
+		user, probe string   // decision compared on both engines
+		grantsFor   string   // or: account whose SHOW GRANTS output is compared
 	}{
 		{kfAdmin, "WITH ADMIN OPTION of a granted role is serialised but not read back by LoadRoleEdge",
 			[]string{"CREATE USER 'u'@'localhost'", "CREATE ROLE 'r'", "GRANT 'r' TO 'u'@'localhost' WITH ADMIN OPTION"}, nil,
-			"u", "GRANT 'r' TO 'u'@'localhost'"},
+			"u", "GRANT 'r' TO 'u'@'localhost'", ""},
 		{kfCase, "loaded privilege sets are keyed by the original object name instead of its lower-case form, so a REVOKE after LoadData does not reach a grant on a database with upper-case letters",
 			[]string{"CREATE USER 'u'@'localhost'", "GRANT SELECT ON `Db2`.* TO 'u'@'localhost'"},
 			[]string{"REVOKE SELECT ON `Db2`.* FROM 'u'@'localhost'"},
-			"u", "SELECT a FROM `Db2`.`t1`"},
+			"u", "SELECT a FROM `Db2`.`t1`", ""},
+		{kfStale, "REVOKE on a procedure with an upper-case letter in its name leaves an empty routine entry in memory that a reload drops; it is later listed as GRANT USAGE ON PROCEDURE on the original engine only",
+			[]string{"CREATE USER 'u'@'localhost'", "REVOKE EXECUTE ON PROCEDURE `d1`.`Pr2` FROM 'u'@'localhost'"},
+			[]string{"GRANT SELECT ON `d1`.* TO 'u'@'localhost'"},
+			"", "", "'u'@'localhost'"},
 	} {
 		st.Eval()
 		A := newEngine(t.Fatalf, true, dbsMixed, tblMixed, prcMixed)
@@ -41,9 +46,20 @@ func TestC41Known(t *testing.T) {
 			ra, rb := A.root.Exec(q), B.root.Exec(q)
 			log = append(log, fmt.Sprintf("both: %s -> original %s, loaded %s", q, ra, rb))
 		}
-		sa, sb := A.f.NewSession(w.user, "localhost", ""), B.f.NewSession(w.user, "localhost", "")
-		oa, ob := outcome(sa.Exec(w.probe)), outcome(sb.Exec(w.probe))
-		log = append(log, fmt.Sprintf("[%s@localhost] %s -> original engine %s, loaded engine %s", w.user, w.probe, oa, ob))
+		var oa, ob string
+		if w.grantsFor != "" {
+			q := "SHOW GRANTS FOR " + w.grantsFor
+			ra, rb := A.root.Exec(q), B.root.Exec(q)
+			oa, ob = strings.Join(normGrants(rowsOf(ra, nil)), " | "), strings.Join(normGrants(rowsOf(rb, nil)), " | ")
+			if !ra.OK() || !rb.OK() {
+				t.Fatalf("%s: %s failed: %s / %s", w.id, q, ra, rb)
+			}
+			log = append(log, fmt.Sprintf("%s -> original engine %s; loaded engine %s", q, oa, ob))
+		} else {
+			sa, sb := A.f.NewSession(w.user, "localhost", ""), B.f.NewSession(w.user, "localhost", "")
+			oa, ob = outcome(sa.Exec(w.probe)), outcome(sb.Exec(w.probe))
+			log = append(log, fmt.Sprintf("[%s@localhost] %s -> original engine %s, loaded engine %s", w.user, w.probe, oa, ob))
+		}
 		A.f.Close()
 		B.f.Close()
 		if oa == ob {
